@@ -71,6 +71,12 @@ CHECKS = {
         text="Seeded histories of up to 12 (30 thorough) re-tuning calls over an alphabet of targets incl. repeat-last and return-to-fold; after each call: reported values, rotation-only (all-distinct cube), idempotence of a repeated call, equality with a fresh cube updated once (single-parameter histories), bit-exact restore on return to the folding values.",
         note="The one-step reference is the library's own single update on a fresh cube; rotation amounts themselves belong to C09. Mixed DM+period histories skip the fresh-cube clause.",
     ),
+    "C18": dict(
+        level="exploration", ref="DESIGN.md §4 C18",
+        technique="deterministic simulation of read histories (fault-free): seeded PSRFITS layouts and read_block/read_plan/reduction histories vs the whole-file read, a calibration model and a twin SIGPROC file; ddmin replay",
+        text="The harness writes search-mode PSRFITS files (NSBLK, rows, depth, polarisation layout, channel order, scales/offsets/weights drawn per run), performs a whole-file read and then a seeded history of aligned/unaligned/boundary-crossing read_block calls, read_plan iterations and reductions; every read must equal the same columns of the whole-file read bitwise, the whole-file read the calibration model, read_plan C01's exactly-once oracle, reductions the twin SIGPROC file, and header numbers must be plain and describe the data as read.",
+        note="Fault-free only: astropy reads through mmap, which no seam can fault without SIGBUS. Layouts the reader cannot read in full (npol 1/2) are excluded as the statement says and counted in the evidence.",
+    ),
     "C19": dict(
         level="exploration", ref="DESIGN.md §3.5, §4 C19",
         technique="deterministic simulation of the thread schedule: prange bodies of each kernel's own source run on virtual threads (baton-passing real threads, sys.monitoring INSTRUCTION pre-emption, seeded schedule) with an access-set race oracle and a single-thread reference; cross-checked on the compiled kernels under real thread counts",
